@@ -733,19 +733,23 @@ theorem resolveTranss_ext {names : List String} {home : Nat} (hh : home < names.
             · exact e2.keys _ (k1 nd hnd)
             · exact k2 x hx nd hnd
 
+/-- every marker need written in a frame: the entry needs, then the needs of its transitions -/
+def needsOfFrame (f : FrameSrc) : List NeedSrc := f.gneeds ++ f.trans.flatMap (·.needs)
+
 /-- resolved frame `f'` (index `home`) is what resolve makes of `f` -/
 def FrameOf (names : List String) (home : Nat) (f : FrameSrc) (f' : Frame) : Prop :=
   f'.name = f.name ∧ resolveOver names f.over = .ok f'.over ∧ f'.guards = f.guards ∧ f'.enter = f.enter ∧ f'.recur = f.recur ∧ f'.exit = f.exit ∧
-  All2 (TransOf names home) f.trans f'.trans
+  All2 (TransOf names home) f.trans f'.trans ∧ All2 (NeedOf names home) f.gneeds f'.gneeds
 
 theorem resolveFrames_ext {names : List String} :
     ∀ {fs : List FrameSrc} {j : Nat} {pl pl' : Placement} {fs' : List Frame},
     j + fs.length ≤ names.length →
     pl.enacts.length = names.length → resolveFrames names j pl fs = .ok (fs', pl') →
-    Ext pl pl' (fun i m => ∃ k f, fs[k]? = some f ∧ ∃ t ∈ f.trans, ∃ n ∈ t.needs, Req names (j + k) n i m) ∧
+    Ext pl pl' (fun i m => ∃ k f, fs[k]? = some f ∧ ∃ n ∈ needsOfFrame f, Req names (j + k) n i m) ∧
       fs'.length = fs.length ∧
       (∀ k f f', fs[k]? = some f → fs'[k]? = some f' → FrameOf names (j + k) f f') ∧
-      ∀ f' ∈ fs', ∀ t' ∈ f'.trans, ∀ nd ∈ t'.needs, (nd.share, nd.key) ∈ pl'.keys := by
+      ∀ f' ∈ fs', (∀ nd ∈ f'.gneeds, (nd.share, nd.key) ∈ pl'.keys) ∧
+        ∀ t' ∈ f'.trans, ∀ nd ∈ t'.needs, (nd.share, nd.key) ∈ pl'.keys := by
   intro fs
   induction fs with
   | nil =>
@@ -757,56 +761,69 @@ theorem resolveFrames_ext {names : List String} :
     intro j pl pl' fs' hj hl h
     simp only [List.length_cons] at hj
     simp only [resolveFrames, bind, Except.bind] at h
-    cases h1 : resolveTranss names j pl f.trans with
-    | error e => simp [h1] at h
-    | ok r1 =>
-      obtain ⟨ts, pl1⟩ := r1
-      simp only [h1] at h
-      cases hov : resolveOver names f.over with
-      | error e => simp [hov] at h
-      | ok ov =>
-      simp only [hov] at h
-      cases h2 : resolveFrames names (j + 1) pl1 fs with
-      | error e => simp [h2] at h
-      | ok r2 =>
-        obtain ⟨fl, pl2⟩ := r2
-        simp only [h2, pure, Except.pure, Except.ok.injEq, Prod.mk.injEq] at h
-        obtain ⟨rfl, rfl⟩ := h
-        obtain ⟨e1, o1, k1⟩ := resolveTranss_ext (show j < names.length by omega) hl h1
-        obtain ⟨e2, l2, o2, k2⟩ := ih (show j + 1 + fs.length ≤ names.length by omega) (e1.len.trans hl) h2
-        refine ⟨(e1.trans e2).congr ?_, by simp [l2], ?_, ?_⟩
-        · intro i m
-          constructor
-          · rintro (⟨t, ht, n, hn, hr⟩ | ⟨k, g, hg, t, ht, n, hn, hr⟩)
-            · exact ⟨0, f, by simp, t, ht, n, hn, by simpa using hr⟩
-            · exact ⟨k + 1, g, by simpa using hg, t, ht, n, hn, by
-                have : j + 1 + k = j + (k + 1) := by omega
-                rw [← this]; exact hr⟩
-          · rintro ⟨k, g, hg, t, ht, n, hn, hr⟩
+    cases h0 : resolveNeeds names j pl f.gneeds with
+    | error e => simp [h0] at h
+    | ok r0 =>
+      obtain ⟨gn, pl0⟩ := r0
+      simp only [h0] at h
+      obtain ⟨e0, o0, k0⟩ := resolveNeeds_ext (show j < names.length by omega) hl h0
+      have hl0 : pl0.enacts.length = names.length := e0.len.trans hl
+      cases h1 : resolveTranss names j pl0 f.trans with
+      | error e => simp [h1] at h
+      | ok r1 =>
+        obtain ⟨ts, pl1⟩ := r1
+        simp only [h1] at h
+        cases hov : resolveOver names f.over with
+        | error e => simp [hov] at h
+        | ok ov =>
+        simp only [hov] at h
+        cases h2 : resolveFrames names (j + 1) pl1 fs with
+        | error e => simp [h2] at h
+        | ok r2 =>
+          obtain ⟨fl, pl2⟩ := r2
+          simp only [h2, pure, Except.pure, Except.ok.injEq, Prod.mk.injEq] at h
+          obtain ⟨rfl, rfl⟩ := h
+          obtain ⟨e1, o1, k1⟩ := resolveTranss_ext (show j < names.length by omega) hl0 h1
+          obtain ⟨e2, l2, o2, k2⟩ := ih (show j + 1 + fs.length ≤ names.length by omega) (e1.len.trans hl0) h2
+          refine ⟨((e0.trans e1).trans e2).congr ?_, by simp [l2], ?_, ?_⟩
+          · intro i m
+            constructor
+            · rintro ((⟨n, hn, hr⟩ | ⟨t, ht, n, hn, hr⟩) | ⟨k, g, hg, n, hn, hr⟩)
+              · exact ⟨0, f, by simp, n, by simp [needsOfFrame, hn], by simpa using hr⟩
+              · exact ⟨0, f, by simp, n, by
+                  simp only [needsOfFrame, List.mem_append, List.mem_flatMap]
+                  exact Or.inr ⟨t, ht, hn⟩, by simpa using hr⟩
+              · exact ⟨k + 1, g, by simpa using hg, n, hn, by
+                  have : j + 1 + k = j + (k + 1) := by omega
+                  rw [← this]; exact hr⟩
+            · rintro ⟨k, g, hg, n, hn, hr⟩
+              cases k with
+              | zero =>
+                simp only [List.getElem?_cons_zero, Option.some.injEq] at hg
+                subst hg
+                simp only [needsOfFrame, List.mem_append, List.mem_flatMap] at hn
+                rcases hn with hn | ⟨t, ht, hn⟩
+                · exact Or.inl (Or.inl ⟨n, hn, by simpa using hr⟩)
+                · exact Or.inl (Or.inr ⟨t, ht, n, hn, by simpa using hr⟩)
+              | succ k =>
+                simp only [List.getElem?_cons_succ] at hg
+                exact Or.inr ⟨k, g, hg, n, hn, by
+                  have : j + 1 + k = j + (k + 1) := by omega
+                  rw [this]; exact hr⟩
+          · intro k g g' hg hg'
             cases k with
             | zero =>
-              simp only [List.getElem?_cons_zero, Option.some.injEq] at hg
-              subst hg
-              exact Or.inl ⟨t, ht, n, hn, by simpa using hr⟩
+              simp only [List.getElem?_cons_zero, Option.some.injEq] at hg hg'
+              subst hg; subst hg'
+              exact ⟨rfl, hov, rfl, rfl, rfl, rfl, by simpa using o1, by simpa using o0⟩
             | succ k =>
-              simp only [List.getElem?_cons_succ] at hg
-              exact Or.inr ⟨k, g, hg, t, ht, n, hn, by
-                have : j + 1 + k = j + (k + 1) := by omega
-                rw [this]; exact hr⟩
-        · intro k g g' hg hg'
-          cases k with
-          | zero =>
-            simp only [List.getElem?_cons_zero, Option.some.injEq] at hg hg'
-            subst hg; subst hg'
-            exact ⟨rfl, hov, rfl, rfl, rfl, rfl, by simpa using o1⟩
-          | succ k =>
-            simp only [List.getElem?_cons_succ] at hg hg'
-            have := o2 k g g' hg hg'
-            have e : j + 1 + k = j + (k + 1) := by omega
-            rw [e] at this; exact this
-        · intro x hx t' ht' nd hnd
-          rcases List.mem_cons.1 hx with rfl | hx
-          · exact e2.keys _ (k1 t' ht' nd hnd)
-          · exact k2 x hx t' ht' nd hnd
+              simp only [List.getElem?_cons_succ] at hg hg'
+              have := o2 k g g' hg hg'
+              have e : j + 1 + k = j + (k + 1) := by omega
+              rw [e] at this; exact this
+          · intro x hx
+            rcases List.mem_cons.1 hx with rfl | hx
+            · exact ⟨fun nd hnd => e2.keys _ (e1.keys _ (k0 nd hnd)), fun t' ht' nd hnd => e2.keys _ (k1 t' ht' nd hnd)⟩
+            · exact k2 x hx
 
 end Ioflo.Marks
